@@ -422,6 +422,7 @@ int main(int argc, char ** argv) {
       fprintf(f, "\"runs_at_depth\":["); for (int d = 0; d <= maxK; d++) fprintf(f, "%s%ld", d ? "," : "", C->runs_at_depth[d]); fprintf(f, "],");
       fprintf(f, "\"verdicts\":{"); for (int v = 0; v < MV_N_VERDICTS; v++) fprintf(f, "%s\"%s\":%ld", v ? "," : "", mv_verdict_name[v], C->verdicts[v]); fprintf(f, "},");
       int npid = 0; for (int i = 0; i < 256; i++) if (C->pid_seen[i >> 6] >> (i & 63) & 1) npid++;
+      fprintf(f, "\"pids_seen\":["); { int fi = 1; for (int i = 0; i < 256; i++) if (C->pid_seen[i >> 6] >> (i & 63) & 1) { fprintf(f, "%s%d", fi ? "" : ",", i); fi = 0; } } fprintf(f, "],");
       fprintf(f, "\"distinct_hook_points\":%d,\"cover_bits\":\"%llx\",\"cover_required\":\"%llx\",\"cover\":{", npid, (unsigned long long)C->cover, (unsigned long long)need);
       int first = 1;
       for (int b = 0; mc_harness.cover_names && mc_harness.cover_names[b]; b++) { fprintf(f, "%s\"%s\":%s", first ? "" : ",", mc_harness.cover_names[b], (C->cover >> b & 1) ? "true" : "false"); first = 0; }
